@@ -80,25 +80,32 @@ func sameItem(a, b item) bool {
 
 func parseOpts() *parse.Options { return &parse.Options{AllowDoubleUnderscoreNames: true} }
 
-// childWuffs: ["W", src] -> [status, out, failKey, failDesc]
+// childWuffs: ["W", src] -> [status, out, failKey, failDesc, fmtLine]
 // status: reject-tokenize | reject-parse | reject-render | ok
+// fmtLine: what Tokenize+Render alone (no parse gate) make of src — "ok <hex>" or "reject" —
+// for the correspondence with the Lean model, which has no parser.
 func childWuffs(req [][]byte) [][]byte {
 	src := req[1]
 	tm := &t.Map{}
 	tokens, comments, err := t.Tokenize(tm, "f.wuffs", src)
 	if err != nil {
-		return [][]byte{[]byte("reject-tokenize")}
-	}
-	if _, err := parse.Parse(tm, "f.wuffs", tokens, parseOpts()); err != nil {
-		return [][]byte{[]byte("reject-parse")}
+		return [][]byte{[]byte("reject-tokenize"), nil, nil, nil, []byte("reject")}
 	}
 	buf := &bytes.Buffer{}
-	if err := render.Render(buf, tm, tokens, comments); err != nil {
-		return [][]byte{[]byte("reject-render")}
+	rerr := render.Render(buf, tm, tokens, comments)
+	fmtLine := []byte("reject")
+	if rerr == nil {
+		fmtLine = []byte("ok " + hlib.Hex(buf.Bytes()))
+	}
+	if _, err := parse.Parse(tm, "f.wuffs", tokens, parseOpts()); err != nil {
+		return [][]byte{[]byte("reject-parse"), nil, nil, nil, fmtLine}
+	}
+	if rerr != nil {
+		return [][]byte{[]byte("reject-render"), nil, nil, nil, fmtLine}
 	}
 	out := append([]byte(nil), buf.Bytes()...)
 	fail := func(key, desc string) [][]byte {
-		return [][]byte{[]byte("ok"), out, []byte(key), []byte(desc)}
+		return [][]byte{[]byte("ok"), out, []byte(key), []byte(desc), fmtLine}
 	}
 
 	// 1. the output re-tokenizes to the same tokens and comments
@@ -136,7 +143,7 @@ func childWuffs(req [][]byte) [][]byte {
 	if !bytes.Equal(buf2.Bytes(), out) {
 		return fail("idem:second-render-differs", "wuffsfmt(wuffsfmt(src)) != wuffsfmt(src): "+firstDiff(buf2.Bytes(), out))
 	}
-	return [][]byte{[]byte("ok"), out, nil, nil}
+	return [][]byte{[]byte("ok"), out, nil, nil, fmtLine}
 }
 
 // ---- parent side: lexemes of a Wuffs source, for perturbation
@@ -582,6 +589,10 @@ func runWuffs(r *hlib.Run) {
 		r.Count("wuffs:origin:" + o)
 		r.Count("wuffs:status:" + status)
 		replay := "wuffsfmt " + hlib.Hex(c.src) + "\n--- source (" + c.origin + ") ---\n" + string(c.src)
+		if len(resp) >= 5 && len(c.src) <= 48<<10 {
+			r.Op("fmt "+hlib.Hex(c.src), string(resp[4]))
+			r.Count("wuffs:fmt-op")
+		}
 		switch status {
 		case "ok":
 		case "reject-tokenize", "reject-parse", "reject-render", "skipped":
